@@ -191,6 +191,22 @@ def arithInto (op : BinOp) (raw : Bool) (t : Fmt) (r : Rounding) (o : Overflow) 
   let cs := ks.map (ovf o t)
   pure (cs, anyB (ks.map (fun k => decide (t.hi < k))), anyB (ks.map (fun k => decide (k < t.lo))))
 
+/-- does the store of the result change what it was handed (the `inaccuracy` condition of `set_val`)? Raw method: the
+kernel value against the stored code; value method: the exact result scaled to the target against the stored code. -/
+def inexactInto (op : BinOp) (raw : Bool) (t : Fmt) (r : Rounding) (o : Overflow) (x y : Fmt)
+    (as bs : List Int) : Option Bool := do
+  let ds ← bcast (fun a b =>
+      let q := if raw then rawKernel op t.nfrac x y a b else scale (exactOp op (valueOf x a) (valueOf y b)) t.nfrac
+      decide (((ovf o t (roundR r q) : Int) : Rat) ≠ q)) as bs
+  pure (anyB ds)
+
+/-- optional tail of an arithmetic observation: `ia(x) ia(y) ia(result)` — the result carries the inaccuracy flag iff an
+operand carried it or the store of the result was inexact. The operands' flags are echoed from the observation. -/
+def withIa (m : List String) (inexact : Option Bool) (obs : List String) : List String :=
+  match obs, inexact with
+  | [_, _, _, _, _, _, iax, iay, _], some d => m ++ [iax, iay, showBool (iax == "1" || iay == "1" || d)]
+  | _, _ => m
+
 def showRes (t : Fmt) (res : List Int × Bool × Bool) : List String :=
   [showSigned t.signed, toString t.nword, toString t.nfrac, showList toString res.1, showBool res.2.1, showBool res.2.2]
 
@@ -221,7 +237,7 @@ def opAR (args obs : List String) : P String := do
     | some t =>
       match arithInto op (meth == "raw") t r o x y as bs with
       | none => throw "AR: shapes"
-      | some res => pure (functional (showRes t res) obs)
+      | some res => pure (functional (withIa (showRes t res) (inexactInto op (meth == "raw") t r o x y as bs) obs) obs)
   | _ => throw "AR: arity"
 
 /-- `AO <op> <kind=out|outlike> <method> <route> <fx> <fy> <ft> <rt> <ot> [a..] [b..] | s n f [codes] ov un`
@@ -246,7 +262,7 @@ def opAO (args obs : List String) : P String := do
       let raw := meth == "raw" && kind == "out"
       match arithInto op raw t r o x y as bs with
       | none => throw "AO: shapes"
-      | some res => pure (functional (showRes t res) obs)
+      | some res => pure (functional (withIa (showRes t res) (inexactInto op raw t r o x y as bs) obs) obs)
   | _ => throw "AO: arity"
 
 /-- `AC <op> <side=l|r> <insize=same> <const_sizing> <method> <fx> <r> <o> [a..] <c> | s n f [codes] ov un`
@@ -732,7 +748,7 @@ def showShape (dims : List Nat) : String :=
 def alongAxis (g : List Int → List Int) (axis : Nat) (rows : List (List Int)) : List (List Int) :=
   if axis = 1 then rows.map g else transposeL ((transposeL rows).map g)
 
-/-- `RD <fn> <route> <axis=n|0|1> <r> <c> <fx> <o> [codes] | s n f shape [codes] ov un`
+/-- `RD <fn> <route> <axis=n|0|1|-1|-2> <r> <c> <fx> <o> [codes] | s n f shape [codes] ov un`
 `r = 0`: 1-D array of length `c`. -/
 def opRD (args obs : List String) : P String := do
   match args with
@@ -745,7 +761,8 @@ def opRD (args obs : List String) : P String := do
     let size := cs.length
     let twoD := r != 0
     let rows : List (List Int) := if twoD then toRows c cs else [cs]
-    let ax : Option Nat := if axis == "n" then none else if axis == "0" then some 0 else some 1
+    -- negative axes count from the last one: -1 = last axis, -2 = first axis of a 2-D array
+    let ax : Option Nat := if axis == "n" then none else if axis == "0" || axis == "-2" then some 0 else some 1
     -- effective axis on rows: a 1-D array is the single row, axis 0 → within that row
     let axr : Option Nat := match ax with
       | none => none
@@ -773,7 +790,10 @@ def opRD (args obs : List String) : P String := do
         match axr with
         | none => pure (prodFmt x size, [size], cumprodCodes x size rows.flatten)
         | some a => pure (prodFmt x size, if twoD then [r, c] else [size], (alongAxis (cumprodCodes x size) a rows).flatten)
-      | "sort" => pure (x, if twoD then [r, c] else [size], (rows.map sortL).flatten)
+      | "sort" =>
+        match axr with
+        | none => pure (x, if twoD then [r, c] else [size], (rows.map sortL).flatten)       -- default: the last axis
+        | some a => pure (x, if twoD then [r, c] else [size], (alongAxis sortL a rows).flatten)
       | "transpose" => pure (x, if twoD then [c, r] else [size], if twoD then (transposeL rows).flatten else cs)
       | "diagonal" => pure (x, [(diagL rows).length], diagL rows)
       | "trace" => pure (sumFmt x (diagL rows).length, [], [sumL (diagL rows)])
